@@ -15,7 +15,7 @@ DRAWS = 3
 
 def describe(tier):
     return {
-        "rule": "TLS: all table suites x valid versions (x TLS 1.3 with/without handshake secrets) x 3 data draws, and three TLS 1.3 "
+        "rule": "TLS: all table suites x valid versions (x TLS 1.3 with/without handshake secrets) x 3 data draws (+ for TLS <= 1.2 a searched draw whose key block starts with a zero byte), every ordered pair of different TLS 1.3 suites in one run, and three TLS 1.3 "
                 "connections in one run for every pattern of complete / traffic-only key-log entries; TLS 1.3 and QUIC with the exporter / early-exporter / "
                 "early-traffic lines of the same client random in the log: all 24 orders of the four traffic-secret lines and all 210 interleavings of the three other lines; QUIC (incl. every ordered pair "
                 "offered-first / negotiated suite): initial "
